@@ -495,6 +495,10 @@ for _p in ('C18', 'C02', 'C01', 'C09'):
 NATIVE_DEC = [(UN, 'native.decoder::SequenceOrSetPayloadDecoder.__call__'), (UN, 'native.decoder::SequenceOfOrSetOfPayloadDecoder.__call__'),
               (UN, 'native.decoder::ChoicePayloadDecoder.__call__')]
 PROPS['C17']['contracts'] = PROPS['C17']['contracts'] + NATIVE_DEC
+# C12: the native decoders leave the guiding type alone; a nested WITH COMPONENTS asks a record without instantiating
+PROPS['C12']['contracts'] = PROPS['C12']['contracts'] + NATIVE_DEC + [
+    (CN, 'type.constraint::WithComponentsConstraint._testValue[one-entry]'),
+    (CN, 'type.constraint::WithComponentsConstraint._testValue[any-number-of-entries]')]
 PROPS['C19']['level_text'] += (' SEQUENCE / SET objects: setComponentByPosition (declared, placeholder and undeclared records; one slot per '
                                'declared component, other slots untouched, refused => unchanged), getComponentByPosition, clear, reset, isValue, '
                                'name-addressed access (= position-addressed access at the position of the name) over a symbolic slot list; '
